@@ -1,9 +1,17 @@
 // Harnesses for renetcode/src/replay_protection.rs  (C04, C07)
 use super::*;
 
+pub(crate) const WIN: usize = NETCODE_REPLAY_BUFFER_SIZE;
+
 /// arbitrary window state satisfying the representation invariant Inv_RP:
 /// slot i is EMPTY or holds s with s % N == i and s <= most_recent
-fn any_window() -> ReplayProtection {
+pub(crate) fn rp_slot(rp: &ReplayProtection, i: usize) -> u64 {
+    rp.received_packet[i]
+}
+pub(crate) fn rp_most_recent(rp: &ReplayProtection) -> u64 {
+    rp.most_recent_sequence
+}
+pub(crate) fn any_window() -> ReplayProtection {
     let rp = ReplayProtection {
         most_recent_sequence: kani::any(),
         received_packet: kani::any(),
